@@ -30,7 +30,7 @@ Print Assumptions T04_refused_no_upstream_in_session.
 Example T04_mitm_session_example :
   let cfg := {| c_name := b "p"; c_timeframe := []; c_basic := Some (b "user", b "pa:ss"); c_deny_localhost := true;
                 c_deny := Some (fun h => str_eqb h (b "evil.test")); c_aliases := []; c_mitm := true;
-                c_idna := fun h => h |} in
+                c_idna := (fun h => h); c_handler := false |} in
   let e := {| now_day := 0; now_hour := 0 |} in
   let good := [(b "Proxy-Authorization", [b "Basic dXNlcjpwYTpzcw=="])] in
   let up := {| u_status := 200; u_hdr := [] |} in
@@ -109,7 +109,10 @@ Theorem T04_allow_forwarded : forall cfg e q up,
     if is_connect q then
       if c_mitm cfg then [EvRespond 200 []]
       else [EvDial (r_host q); EvRespond 200 (modify_response [])]
-    else [EvDial (r_host q); EvSend (r_host q); EvRespond (u_status up) (modify_response (u_hdr up))].
+    else match r_host q with
+         | [] => [EvRespond 500 []]          (* no target at all: an error response, nothing dialled *)
+         | _ => [EvDial (r_host q); EvSend (r_host q); EvRespond (u_status up) (modify_response (u_hdr up))]
+         end.
 Proof. exact (fun cfg e q up H => allowed_exchange ob_handle_shape ob_connect_shape cfg e q up
                 (proj2 (verdict_allow_iff ob_security_before_stack cfg e q) H)). Qed.
 Print Assumptions T04_allow_forwarded.
@@ -118,7 +121,7 @@ Print Assumptions T04_allow_forwarded.
    model predicts (status, headers, dial log, what reaches a peer, where the exchange goes)
    satisfies xcase_prop_ok — the very predicate evaluated on the real proxy's observations. *)
 Theorem T04_model_meets_oracle : forall cfg e q,
-  xcase_prop_ok {| x_cfg := cfg; x_env := e; x_req := q; x_obs := predicted_obs cfg e q |} = true.
+  xcase_prop_ok {| x_cfg := cfg; x_env := e; x_req := q; x_raw_host := r_host q; x_obs := predicted_obs cfg e q |} = true.
 Proof.
   exact (model_meets_oracle ob_basic_prefix ob_security_before_stack ob_status_map
            (proj1 ob_localhost_maps_idna) ob_localhost_strips_zone (proj1 ob_trailing_dot) (proj2 ob_trailing_dot)
@@ -131,7 +134,7 @@ Example T04_example :
   let cfg := {| c_name := b "p"; c_timeframe := [{| tf_day := 2; tf_start := 9; tf_end := 17 |}];
                 c_basic := Some (b "user", b "pa:ss"); c_deny_localhost := true;
                 c_deny := Some (fun h => str_eqb h (b "evil.test")); c_aliases := [b "vm"]; c_mitm := false;
-                c_idna := fun h => h |} in
+                c_idna := (fun h => h); c_handler := false |} in
   let e := {| now_day := 2; now_hour := 10 |} in
   let good := [(b "Proxy-Authorization", [b "bAsIc dXNlcjpwYTpzcw=="])] in
   verdict_of cfg e {| r_method := b "GET"; r_host := b "example.test:80"; r_hdr := good |} = Allow /\
